@@ -498,6 +498,24 @@ var actorTable = []actorRow{
 func c10SignerActor(r *Run) {
 	w := r.W
 	cat := catalogue(w)
+	// the AVS task result names the operator it is recorded for inside the payload: the keeper must compare
+	// it with the signer it was handed, on every path that stores the result
+	if kv := w.View("x/avs/keeper", "Keeper.SetTaskResultInfo"); kv != nil {
+		r.saw(kv.ID())
+		from, info := paramName(kv, 1), paramName(kv, 2)
+		n := 0
+		for _, c := range kv.CallsNamed("Set") {
+			n++
+			ok := kv.factsOf(c).cmp(func(cm cmp) bool {
+				return cm.Op == "==" && exprString(cm.L) == from && exprString(cm.R) == info+".OperatorAddress"
+			})
+			r.check(ok, "C10.R3", fmt.Sprintf("msg:avs.SubmitTaskResult|signer-is-recorded-operator#%d", n), kv.pos(c), "a task result is stored only for the operator that signed the message",
+				"a store write of SetTaskResultInfo is not dominated by "+from+" == "+info+".OperatorAddress: any account can record a result in another operator's name")
+		}
+		if n == 0 {
+			r.bad("C10.R3", "msg:avs.SubmitTaskResult|signer-is-recorded-operator", kv.pos(kv.Decl), "result writes present", "no store write found in SetTaskResultInfo")
+		}
+	}
 	byName := map[string]*Entry{}
 	for _, e := range cat.Cat("msg") {
 		byName[e.Name] = e
